@@ -6,12 +6,17 @@ import Qhttp.Model.Socket
 namespace QhttpBridge.Tables
 open Qhttp
 
-/-- the method-token chain of `Parser::parseRequestHeaders` is the model's table, token for token -/
+/-- the method tokens `Parser::parseRequestHeaders` recognises are exactly the model's table, each with its code
+    (as sets: the tokens are mutually exclusive, so the order in which the C++ tests them does not matter) -/
 theorem methodTokens_eq :
-    QhttpGen.Tables.methodTokens = Parser.methodTable.map (fun e => (e.1, (e.2 : Int))) := by decide
+    (QhttpGen.Tables.methodTokens.all fun e => (Parser.methodTable.map (fun x => (x.1, (x.2 : Int)))).contains e) = true ∧
+    ((Parser.methodTable.map (fun x => (x.1, (x.2 : Int)))).all fun e => QhttpGen.Tables.methodTokens.contains e) = true ∧
+    QhttpGen.Tables.methodTokens.length = Parser.methodTable.length := by decide
 
 /-- each token is mapped to the `Socket::Method` value of the same name (no swapped constants) -/
-theorem methodTokens_enum : QhttpGen.Tables.methodTokens = QhttpGen.Tables.methodEnum := by decide
+theorem methodTokens_enum :
+    (QhttpGen.Tables.methodTokens.all fun e => QhttpGen.Tables.methodEnum.contains e) = true ∧
+    (QhttpGen.Tables.methodEnum.all fun e => QhttpGen.Tables.methodTokens.contains e) = true := by decide
 
 /-- the eight values are the distinct powers of two 1 … 128 -/
 theorem method_codes : Parser.methodTable.map (·.2) = [1, 2, 4, 8, 16, 32, 64, 128] := by decide
